@@ -30,6 +30,9 @@ impl Head {
 
     pub fn write(&mut self, data: &[u8]) -> Result<(), IoError> {
         fail_point!("write-head");
+        // the head file is not opened in append mode and `retrieve` reads it through a duplicated
+        // descriptor, which shares the file offset: always position at the end before writing
+        self.file.seek(SeekFrom::End(0))?;
         self.file.write_all(data)?;
         self.bytes += data.len() as u64;
         Ok(())
